@@ -224,3 +224,16 @@ Theorem C18_orbits_cover : forall (g : vgraph) (lab p : list N),
   forall v, In v (node_ids g) -> exists c, In c (orbits_from_perms (min_leaves g)) /\ In v c.
 Proof. exact canon_orbits_cover. Qed.
 Print Assumptions C18_orbits_cover.
+
+(** Node naming schemes (integer_ids=True numbers the sorted species 1..N and the reactions N+1..N+M; the harness feeds the
+    model the network with exactly these numbers as ids): a network whose species labels and reaction ids are ALL replaced
+    through an injective map receives the same minimal label and the identical canonical graph. *)
+Theorem C18_net_renamed_ids : forall (st : bool) (f : N -> N) (n : net) (lab p lab' p' : list N),
+  net_ok st n -> net_ok st (rename_net f n) ->
+  (forall r, In r (nrxns n) -> forall sc, In sc (lhs r ++ rhs r) -> (0 < snd sc)%Z) ->
+  inj_on f (nspecies n ++ map rid (nrxns n)) ->
+  fst (canon_search (view true st n)) = Some (lab, p) ->
+  fst (canon_search (view true st (rename_net f n))) = Some (lab', p') ->
+  lab' = lab /\ geq (canon_graph (view true st (rename_net f n)) p') (canon_graph (view true st n) p).
+Proof. exact net_renamed_ids_bip. Qed.
+Print Assumptions C18_net_renamed_ids.
